@@ -12,6 +12,70 @@ use std::collections::BTreeSet;
 use std::ops::Index;
 use std::slice::SliceIndex;
 
+/// Verification hook (only with `--cfg linfa_verif`): one `optics.step` event per step of
+/// `transform` (outer scan skips a processed index, a sample starts a new walk, a seed is inserted into
+/// the seed list / its reachability is lowered, a seed of minimum reachability is popped and listed,
+/// the seed list is exhausted).
+#[cfg(linfa_verif)]
+mod verif {
+    use linfa::Float;
+
+    pub(super) fn on() -> bool {
+        linfa::verif_hook::enabled()
+    }
+    fn num<F: Float>(v: &Option<F>) -> String {
+        match v.and_then(|x| x.to_f64()) {
+            None => "null".to_string(),
+            Some(x) if x.is_finite() => format!("{:?}", x),
+            Some(_) => "\"nonfinite\"".to_string(),
+        }
+    }
+    pub(super) fn skip(i: usize) {
+        linfa::verif_hook::emit(&format!(
+            "\"ev\":\"optics.step\",\"op\":\"skip\",\"i\":{}",
+            i
+        ));
+    }
+    /// sample `i` is listed (`op` = "start": it starts a new walk, "pop": it was taken from the seed list, which held
+    /// `nseeds` samples before): number of neighbours found, core and reachability distance as listed
+    pub(super) fn list<F: Float>(
+        op: &str,
+        i: usize,
+        nn: usize,
+        nseeds: usize,
+        core: &Option<F>,
+        reach: &Option<F>,
+    ) {
+        linfa::verif_hook::emit(&format!(
+            "\"ev\":\"optics.step\",\"op\":\"{}\",\"i\":{},\"nn\":{},\"nseeds\":{},\"core\":{},\"reach\":{}",
+            op,
+            i,
+            nn,
+            nseeds,
+            num(core),
+            num(reach)
+        ));
+    }
+    /// seed list: the reachability of sample `j` changed to `r` while the neighbours of sample `o` were visited
+    /// (`new`: it had none before, i.e. `j` was inserted into the seed list, which now holds `nseeds` samples)
+    pub(super) fn seed<F: Float>(o: usize, j: usize, r: &Option<F>, new: bool, nseeds: usize) {
+        linfa::verif_hook::emit(&format!(
+            "\"ev\":\"optics.step\",\"op\":\"seed\",\"o\":{},\"j\":{},\"r\":{},\"new\":{},\"nseeds\":{}",
+            o,
+            j,
+            num(r),
+            new,
+            nseeds
+        ));
+    }
+    pub(super) fn mark(op: &str, n: usize) {
+        linfa::verif_hook::emit(&format!(
+            "\"ev\":\"optics.step\",\"op\":\"{}\",\"n\":{}",
+            op, n
+        ));
+    }
+}
+
 #[derive(Clone, Debug, PartialEq, Eq)]
 #[cfg_attr(
     feature = "serde",
@@ -195,6 +259,10 @@ impl<F: Float, D: Distance<F>, N: NearestNeighbour>
             if index == points.len() {
                 break;
             } else if processed.contains(&index) {
+                #[cfg(linfa_verif)]
+                if verif::on() {
+                    verif::skip(index);
+                }
                 index += 1;
                 continue;
             }
@@ -215,6 +283,18 @@ impl<F: Float, D: Distance<F>, N: NearestNeighbour>
             // The sample starting a new walk is listed before the samples it reaches
             processed.insert(n.index);
             result.orderings.push(n.clone());
+            #[cfg(linfa_verif)]
+            if verif::on() {
+                let listed = &result.orderings[result.orderings.len() - 1];
+                verif::list(
+                    "start",
+                    listed.index,
+                    neighbors.len(),
+                    seeds.len(),
+                    &listed.core_distance,
+                    &listed.reachability_distance,
+                );
+            }
             if n.core_distance.is_some() {
                 seeds.clear();
                 // Here we get a list of "density reachable" samples that haven't been processed
@@ -235,12 +315,26 @@ impl<F: Float, D: Distance<F>, N: NearestNeighbour>
                         .min_by(|(_, a), (_, b)| points[**a].cmp(&points[**b]))
                         .unwrap();
                     let n = &mut points[*min_point];
+                    #[cfg(linfa_verif)]
+                    let seeds_len_before = seeds.len();
                     seeds.remove(i);
                     processed.insert(n.index);
                     let neighbors = self.find_neighbors(&*nn, observations.row(n.index));
 
                     self.set_core_distance(n, &neighbors, observations);
                     result.orderings.push(n.clone());
+                    #[cfg(linfa_verif)]
+                    if verif::on() {
+                        let listed = &result.orderings[result.orderings.len() - 1];
+                        verif::list(
+                            "pop",
+                            listed.index,
+                            neighbors.len(),
+                            seeds_len_before,
+                            &listed.core_distance,
+                            &listed.reachability_distance,
+                        );
+                    }
                     if n.core_distance.is_some() {
                         self.get_seeds(
                             observations,
@@ -252,7 +346,15 @@ impl<F: Float, D: Distance<F>, N: NearestNeighbour>
                         );
                     }
                 }
+                #[cfg(linfa_verif)]
+                if verif::on() {
+                    verif::mark("endwalk", seeds.len());
+                }
             }
+        }
+        #[cfg(linfa_verif)]
+        if verif::on() {
+            verif::mark("end", result.orderings.len());
         }
         result
     }
@@ -315,6 +417,8 @@ impl<F: Float, D: Distance<F>, N: NearestNeighbour> OpticsValidParams<F, D, N> {
                 .dist_fn()
                 .distance(observations.row(n.index), observations.row(sample.index));
             let r_dist = F::max(sample.core_distance.unwrap(), dist);
+            #[cfg(linfa_verif)]
+            let reach_before = points[n.index].reachability_distance;
             match points[n.index].reachability_distance {
                 None => {
                     points[n.index].reachability_distance = Some(r_dist);
@@ -322,6 +426,19 @@ impl<F: Float, D: Distance<F>, N: NearestNeighbour> OpticsValidParams<F, D, N> {
                 }
                 Some(s) if r_dist < s => points[n.index].reachability_distance = Some(r_dist),
                 _ => {}
+            }
+            #[cfg(linfa_verif)]
+            if verif::on() {
+                let after = points[n.index].reachability_distance;
+                if after != reach_before {
+                    verif::seed(
+                        sample.index,
+                        n.index,
+                        &after,
+                        reach_before.is_none(),
+                        seeds.len(),
+                    );
+                }
             }
         }
     }
